@@ -30,17 +30,25 @@ import vlib
 LEVEL = "model_checking"
 WORKERS = 4
 
-# family, pattern, MaxObj, MaxMut
+# family, pattern, mode, MaxObj, MaxMut
+#   mode "heap": derivations (clones, conversions, views, iterators, snapshots), then mutations
+#   mode "iter": iterator protocol - iterators / joint iterators / safe iterators and their clones made at any
+#                time, Next() on any of them in any order
 CONFIGS = {
-    "quick": [("sca", "z", 3, 2), ("vec", "z", 3, 2), ("vec", "f", 3, 1), ("mat", "z", 3, 1), ("mat", "f", 3, 1)],
-    "thorough": [("sca", "z", 4, 3), ("vec", "z", 3, 2), ("vec", "f", 3, 2), ("mat", "z", 3, 2), ("mat", "f", 3, 2)],
+    "quick": [("sca", "z", "heap", 3, 2), ("vec", "z", "heap", 3, 1), ("vec", "f", "heap", 3, 1),
+              ("mat", "z", "heap", 3, 1), ("mat", "f", "heap", 3, 1), ("avl", "f", "heap", 3, 3),
+              ("vec", "f", "iter", 4, 5), ("mat", "f", "iter", 4, 4), ("avl", "f", "iter", 4, 4)],
+    "thorough": [("sca", "z", "heap", 4, 3), ("vec", "z", "heap", 3, 2), ("vec", "f", "heap", 3, 2),
+                 ("mat", "z", "heap", 3, 2), ("mat", "f", "heap", 3, 2), ("avl", "f", "heap", 4, 4),
+                 ("vec", "f", "iter", 5, 6), ("mat", "f", "iter", 4, 6), ("avl", "f", "iter", 5, 6)],
 }
 RECORD = {"quick": (150, 40), "thorough": (1200, 60)}      # histories, calls
 SIZES = {"quick": "{2}", "thorough": "{2, 3}"}
 
 EXPECTED_OPS = {"clone", "asSame", "asFlip", "asType", "row", "col", "slice", "mslice", "T", "elem", "iter", "itclone",
                 "set", "assign", "der", "vars", "fill", "reset", "swap", "reverse", "sort", "swaprows", "append",
-                "itnext", "itset", "asmatrix", "asvector", "constrow", "constcol", "diag"}
+                "itnext", "itset", "asmatrix", "asvector", "constrow", "constcol", "diag",
+                "jiter", "tclone", "titer", "safeiter", "safefrom", "tins", "tdel"}
 EXPECTED_ENTRIES = 50
 
 
@@ -111,11 +119,11 @@ def run(ctx):
     total_cases = total_runs = total_steps = 0
     ops_seen = {}
     skipped = {}
-    for fam, pat, mo, mm in CONFIGS[tier]:
-        label = "%s-%s" % (fam, pat)
+    for fam, pat, mode, mo, mm in CONFIGS[tier]:
+        label = "%s-%s-%s" % (fam, pat, mode)
         cases = ctx.path("cases-%s.ndjson" % label)
         res = ctx.tlc("CopySemantics", "CopySemantics.cfg", workers=WORKERS, timeout=6000, label=label, json_out=cases,
-                      consts={"Fam": '"%s"' % fam, "Pat": '"%s"' % pat, "MaxObj": str(mo), "MaxMut": str(mm), "Emit": "TRUE"})
+                      consts={"Fam": '"%s"' % fam, "Pat": '"%s"' % pat, "Mode": '"%s"' % mode, "MaxObj": str(mo), "MaxMut": str(mm), "Emit": "TRUE"})
         n = dedupe(cases)
         ctx.log("CopySemantics %s: %d distinct states, %d transitions, %d cases" % (label, res.distinct, res.generated, n))
         if n == 0:
@@ -128,7 +136,7 @@ def run(ctx):
             ops_seen[k] = ops_seen.get(k, 0) + v
         for k, v in summ["skipped"].items():
             skipped[k] = skipped.get(k, 0) + v
-        if label == "mat-z":
+        if label == "mat-z-heap":
             with open(cases) as f:
                 for _ in range(300):
                     line = f.readline()
@@ -150,7 +158,7 @@ def run(ctx):
     missing = EXPECTED_OPS - set(ops_seen)
     if missing:
         raise vlib.Infra("vacuity: calls never generated: %s" % sorted(missing))
-    if total_runs < total_cases * 4:
+    if total_runs < total_cases:
         raise vlib.Infra("vacuity: only %d instantiations executed for %d cases" % (total_runs, total_cases))
     ctx.log("part A: %d cases, %d instantiations executed (%d calls), not compared: %s" % (total_cases, total_runs, total_steps, skipped))
 
@@ -234,8 +242,8 @@ def run(ctx):
     ctx.extra["frame_roles_compared"] = fsum["roles_checked"]
     ctx.extra["frame_calls_panicked"] = fsum["panic_names"]
     ctx.extra["information_undocumented_sharing"] = {k: sorted(set(v)) for k, v in fsum.get("information", {}).items()}
-    ctx.extra["bounds"] = {"configs": [dict(family=f, pattern=p, max_objects=o, mutations_after_derivation=m)
-                                       for f, p, o, m in CONFIGS[tier]],
+    ctx.extra["bounds"] = {"configs": [dict(family=f, pattern=p, mode=md, max_objects=o, mutations=m)
+                                       for f, p, md, o, m in CONFIGS[tier]],
                            "instantiations": "dense/sparse x int8..int, float32/64, real32/64",
                            "record": dict(histories=ntr, calls=nops, max_live_objects=8),
                            "frame_sizes": SIZES[tier]}
@@ -276,8 +284,9 @@ def replay(ctx, path):
 MANIFEST = {
     "engine": "copysem",
     "spec": "spec/CopySemantics.tla",
-    "engine_text": "CopySemantics.tla (heap model of scalars, vectors, matrices, views and iterators; copy / reference / probe "
-                   "classification from the documentation), CopySemanticsTrace.tla, FrameConditions.tla (table "
+    "engine_text": "CopySemantics.tla (heap model of scalars, vectors, matrices, views, iterators, joint iterators and the ordered "
+                   "integer index with its snapshot iterators; copy / reference / probe classification from the documentation; "
+                   "share sets = storage two live objects may have in common, projected from the real objects by a reflect walk), CopySemanticsTrace.tla, FrameConditions.tla (table "
                    "MayModify(entry, mode) over all algorithm entry points, container operations, distributions and estimators), "
                    "FrameTrace.tla; Go driver harness/cmd/copysem",
     "technique": "TLA+ contract checked by TLC; one replay case per transition of the heap model's state graph executed on the real "
